@@ -146,6 +146,39 @@ def run(ck: Check):
                                     {"layer": name, "param": par}, signature={"layer": name, "param": par, "mode": mode, "what": "single-gate"})
                         break
                 # temperature sensitivity of the Walsh hard sample through a layer: same draws, two temperatures
+    # every tree level of a Walsh convolution samples: a node whose form is the constant c (coefficients (c,0,0,0)) is 1 with
+    # probability logistic(c) in gumbel_hard, whatever its inputs and whatever the temperature - checked at the root of depth-1
+    # and depth-2 trees (the leaves carry random coefficients), and switching the sampling mode after a training forward is honoured
+    for depth in (1, 2):
+        for cval, tau in ((-1.0, 0.5), (0.8, 2.0)):
+            torch.manual_seed(ck.seed + depth)
+            K = 4
+            c = LogicConv2d(in_dim=(3, 3), device="cpu", channels=1, num_kernels=K, tree_depth=depth, receptive_field_size=2,
+                            parametrization="walsh", weight_init="random", forward_sampling="soft", temperature=1.0)
+            with torch.no_grad():
+                c.tree_weights[depth][0].copy_(torch.tensor([[cval, 0.0, 0.0, 0.0]] * K))
+            c.train()
+            xb = (torch.rand(500, 1, 3, 3) > 0.5).float()
+            with torch.no_grad():
+                c(xb)                                   # one training forward in the construction-time mode first
+            c.forward_sampling = "gumbel_hard"
+            c.temperature = tau
+            ones = n = 0
+            for draw in range(10):
+                with torch.no_grad():
+                    y = c(xb)
+                if float(torch.minimum(y.abs(), (y - 1).abs()).max()) > 1e-6:
+                    ck.disagree("gumbel_hard output of a Walsh convolution is not Boolean after the mode was switched on an existing layer",
+                                {"depth": depth, "tau": tau}, signature={"layer": "conv2d", "param": "walsh", "what": "single-gate"})
+                    break
+                ones += float(y.sum())
+                n += y.numel()
+            p = 1 / (1 + math.exp(-cval))
+            ck.case({"kind": "conv-root-frequency", "depth": depth, "c": cval, "tau": tau, "n": n}, nontrivial=True, kind="frequency")
+            if n and abs(ones / n - p) > 6 * math.sqrt(p * (1 - p) / n):
+                ck.disagree("root node of a Walsh convolution: frequency of hard = 1 is not logistic(form)",
+                            {"depth": depth, "c": cval, "tau": tau, "n": n}, expected=p, observed=ones / n,
+                            signature={"what": "frequency", "layer": "conv2d-root"})
     failed = coqio.interval_goals(ck, "c17itv", [(g[0], g[1], g[2], g[3]) for g in goals],
                                   extra_imports="From TLX Require Import Proofs.C17Facts.\n", extra_unfold="gumbel_soft noise eps")
     ck.count("interval_lemmas", len(goals))
